@@ -264,8 +264,24 @@ pub fn family_g(rng: &mut StdRng) -> Problem {
     let mut o = GenOpts { nmax: n, max_cones: 4, soc_max: 8, psd_max: 0, density: 0.6, mag_exp: 3.0, ..Default::default() };
     o.allow_zero = n >= 4;
     // planted interior point with m >= 2n+2 rows: add nonnegative rows until large enough
+    // every twelfth problem has a planted solution far from the origin (norm of a few hundred): small data entries, the planted
+    // primal point moved along a random direction with b and q adjusted so that the same (s0, z0) stay strictly feasible
+    let far = rng.gen::<f64>() < 0.08;
+    if far { o.mag_exp = 0.3; }
     let mut p = gen::planted_feasible_n(rng, &o, n, 2 * n + 2);
-    p.tag = "G".into();
+    if far {
+        let u: Vec<f64> = (0..n).map(|_| gen::normal(rng)).collect();
+        let un = u.iter().map(|v| v * v).sum::<f64>().sqrt().max(1e-9);
+        let ad = p.A.to_dense();
+        let pd = crate::observer::sym_dense(&p.P);
+        let au: Vec<f64> = ad.iter().map(|r| r.iter().zip(&u).map(|(a, b)| a * b).sum::<f64>() / un).collect();
+        let pu: Vec<f64> = pd.iter().map(|r| r.iter().zip(&u).map(|(a, b)| a * b).sum::<f64>() / un).collect();
+        let big = au.iter().chain(pu.iter()).fold(1e-9f64, |m, v| m.max(v.abs()));
+        let t = (800.0 / big).min(600.0);          // keeps every entry of b and q within 1e3
+        for i in 0..p.b.len() { p.b[i] += t * au[i]; }
+        for j in 0..n { p.q[j] -= t * pu[j]; }
+    }
+    p.tag = if far { "G+far".into() } else { "G".into() };
     p
 }
 
